@@ -34,6 +34,7 @@ CHECK = {
     "campaigns": [
         {"test": "TestVerifC12", "checks": {"quick": 800, "thorough": 40000}, "steps": 40, "shrinktime": "90s", "death_is_violation": True,
          "timeout": {"quick": 600, "thorough": 5400}},
+        {"test": "TestVerifC12Fixed", "fixed": True, "checks": {"quick": 1, "thorough": 1}, "death_is_violation": True},
         {"test": "TestVerifC12Kill", "checks": {"quick": 96, "thorough": 2400}, "shrinktime": "1s", "death_is_violation": True,
          "timeout": {"quick": 900, "thorough": 7200}},
     ],
